@@ -61,6 +61,17 @@ class Live:
         self.of = [p + "fuelburn", p + "CL", p + "CD", p + "CM", p + "L_equals_W", p + "wing_perf.failure", "wing.structural_mass", p + "total_perf.moment.M", p + "cg"]
         self.wrt = ["alpha", "v", "rho", "Mach_number", "load_factor", "W0", "empty_cg", "wing.twist_cp", "wing.thickness_cp", "re", "R"]
 
+    def _build_as_tube_it(self, span=20.0):
+        """as_tube with an iterative linear solver on the coupled group: the components' own solve_linear / apply_linear run
+        (with DirectSolver(assemble_jac=True) they never do).  A fixed number of sweeps: deterministic, compared bit for bit."""
+        self._as(dict(name="wing", nx=2, ny=4, sym=True, side="L", shape="all", visc=True, fem="tube", relief=True, span=span, geo={"twist_cp": [1.0, 2.0, 3.0]}), lin="LBGS", lin_maxiter=30)
+        p = "AS_point_0."
+        self.of = [p + "fuelburn", p + "CL", p + "wing_perf.failure"]
+        self.wrt = ["alpha", "wing.twist_cp", "wing.thickness_cp"]
+
+    def _build_as_tubeB_it(self):
+        self._build_as_tube_it(span=14.0)
+
     def _build_as_wingbox(self):
         self._as(
             dict(name="wing", nx=2, ny=3, sym=True, side="L", shape="all", visc=True, wave=True, fem="wingbox", relief=True, fuel=True, npm=1, chord=3.0, span=20.0, geo={"twist_cp": [1.0, 2.0, 3.0]})
